@@ -331,6 +331,18 @@ fn run_c10(ctx: &Ctx) -> Run {
         let n = ctx.n(200_000, 6_000_000) / threads as u64;
         for _ in 0..n {
             let flavour = *rng.pick(&["antichain", "complete", "multiroot", "lowres", "lowres", "lookalike"]);
+            if rng.chance(0.1) {
+                // history: a call that fails half way must leave nothing behind for the next call on this thread
+                let mut hostile: Vec<u64> = gen::cell_set(&mut rng, "antichain").iter().take(20).map(|c| encode(*c)).collect();
+                let r = 2 + rng.below(27) as i32;
+                let c = gen::random_cell(&mut rng, r);
+                if let Some(p) = parent_at(c, c.res - 1) {
+                    let top = 60 + rng.below(4);
+                    hostile.extend(children_at(p, c.res).into_iter().map(|k| (encode(k) & ((1u64 << 58) - 1)) | (top << 58)));
+                }
+                let _ = compact(&hostile);
+                run.count("history.preceded_by_a_call_on_hostile_ids");
+            }
             let set = gen::cell_set(&mut rng, flavour);
             run.count(&format!("flavour.{flavour}"));
             check_canonical(run, &mut rng, &set, flavour);
